@@ -440,7 +440,10 @@ Proof.
       destruct br.
       * inversion H; subst; clear H. split; [exact St|]. eexists. split; [apply frames_upd_top; exact EF|].
         split; [exact SF|]. apply VK; reflexivity.
-      * eapply REC; [| | | |exact H];
+      * destruct (top_code_empty _).
+        { inversion H; subst; clear H. split; [exact St|]. eexists.
+          split; [rewrite frames_clear_values; apply frames_upd_top; apply frames_upd_top; exact EF|]. split; [exact SF|]. apply VK; reflexivity. }
+        eapply REC; [| | | |exact H];
           [| | |rewrite frames_clear_values; apply frames_upd_top; apply frames_upd_top; exact EF];
           [reflexivity|reflexivity|repeat split].
       * inversion H; subst; clear H. split; [exact St|]. eexists.
@@ -517,6 +520,8 @@ Proof.
     destruct (if Z.eqb (r_max_runtime r1) 0 then (false, r1) else let (t, r'0) := now r1 in (Z.ltb (r_max_runtime r1 + r_run_ts r1) t, r'0)) as [ex r2].
     destruct ex; [discriminate|]. unfold bindr in H. destruct (exec_instr i r2 c1) as [[r3 c5]| | |]; try discriminate.
     destruct (negb _); [discriminate|]. destruct (on_error _) as [[[] ?]| | |]; discriminate.
+  - destruct (if Z.eqb (r_max_runtime r1) 0 then (false, r1) else let (t, r'0) := now r1 in (Z.ltb (r_max_runtime r1 + r_run_ts r1) t, r'0)) as [ex r2].
+    destruct ex; discriminate.
 Qed.
 
 (* ================================================================ 6. spawn *)
@@ -1088,6 +1093,18 @@ Proof.
         rewrite <- T. exact (frames_push_nil_if (pop_frame (clear_values c1))).
     + destruct (current_instr c1) as [i|] eqn:CI; [|discriminate]. exact (EX i eq_refl H).
   - destruct (current_instr c1) as [i|] eqn:CI; [|discriminate]. exact (EX i eq_refl H).
+  - (* an empty scope restarted: only the deadline is looked at *)
+    assert (R2 : exists ex r2, (if Z.eqb (r_max_runtime r1) 0 then (false, r1)
+                                else let (t, r'0) := now r1 in (Z.ltb (r_max_runtime r1 + r_run_ts r1) t, r'0)) = (ex, r2)
+                               /\ same_store r1 r2).
+    { destruct (Z.eqb (r_max_runtime r1) 0); [exists false, r1; split; [reflexivity|apply same_store_refl]|].
+      unfold now. eexists; eexists; split; [reflexivity|]. repeat split. }
+    destruct R2 as (ex & r2 & R2e & St2). rewrite R2e in H.
+    assert (C2 : cur r2 = Some c) by (rewrite (cur_same_store _ _ St2); exact C1).
+    destruct ex; inversion H; subst; clear H; exists c1; (split; [|left; now apply NsSame]).
+    + change (cur (logmsg (upd_cur r2 c1) d_MaximumRuntimeReached) = Some c1).
+      rewrite (cur_same_store _ _ (same_store_logmsg _ _)). eapply cur_upd_cur; exact C2.
+    + cbn. eapply cur_upd_cur; exact C2.
 Qed.
 
 (* ================================================================ the statements of Properties_C03.v *)
